@@ -8,7 +8,7 @@ from .interp import Interp, Ctx, Obligation, Frame, HeapObj, _Return, _Break, _C
 from .repo import ClassInfo, FunctionInfo, oracle, PYMOD
 from .contracts import Clause
 
-TIMEOUT_MS = int(os.environ.get("PYVC_TIMEOUT_MS", "20000"))
+TIMEOUT_MS = int(os.environ.get("PYVC_TIMEOUT_MS", "60000"))
 
 
 class ContractError(Exception):
@@ -936,8 +936,11 @@ class Verifier:
                             break
                     else:
                         g = x if g is False else mkbool(z3.Or(Bo(g), x.t))
-                self.oblige(ip, "%s:raised-only-when" % matched.name, "raises", matched, g,
-                            extra={"exc": exc, "line": outcome[2]})
+                # the raised exception must be justified by SOME matching clause; the obligation is attributed to every
+                # matching clause (so that each property relying on any of them sees it)
+                for mcl in [cl for cl in c.exc if exc_matches(self.repo, exc, cl.exc)]:
+                    self.oblige(ip, "%s:raised-only-when" % mcl.name, "raises", mcl, g,
+                                extra={"exc": exc, "line": outcome[2]})
             else:
                 cl = Clause("raises", "no-unexpected-exception", "True", tags=" ".join(sorted(self.all_tags(c))))
                 self.oblige(ip, "unexpected-raise:%s" % exc, "raises", cl, False, extra={"exc": exc, "line": outcome[2]})
